@@ -10,7 +10,7 @@ Recorded on the real library and judged by TLC:
    build, no foreign exception escapes and -- for programs without recovering constructs -- the outcome is StreamError, never a value;
  * conformance of the error class (stream / other construct error / explicit) at every node against Sem.
 """
-from .. import ast as A, gen, values as V, campaign, tracer
+from .. import ast as A, gen, values as V, campaign, tracer, speccode
 from . import common
 
 LEVEL = "model_checking"
@@ -76,6 +76,17 @@ def run(ctx):
             camp.sh.maybe_flush()
             if i < 3:
                 ctx.sample({"program": prog})
+        # spec -> code: every input of the sessions TLC explores on the model's universe (design level: theorems Closed / Prefix of MC_CAM),
+        # and every strict prefix of the encodings the specification built
+        uprogs, ukw, sessions, _ = speccode.explore(ctx, focus="all", part=speccode.part_of(ctx, 8 if quick else 16))
+        def on(camp, prog, con, s, idx):
+            b = idx["calls"].get("build")
+            if b is not None and b["res"]["ok"]:
+                out = bytes(b["res"]["v"]["b"])
+                for j in range(len(out)):
+                    ip, p = camp.parse(prog, con, out[:j], 0, ukw, tag="trunc")
+                    camp.sh.session("C06.prefix", [idx["build"], ip])
+        nt += speccode.drive(camp, uprogs, ukw, sessions, on)
         vs = camp.validate()
         def conf(v, m):
             c = m["case"]
